@@ -96,6 +96,15 @@ PROPS = {
         outside=['symbolic copy tokens (62 GB OOM, DESIGN 3)', 'raw (uncompressed) 4096-byte chunks', 'dir-stream walk in vba.rs (encoding_rs / byteorder readers): not admitted yet', 'module offsets, code pages'],
         assumptions=['chunks shorter than 4096 bytes before the last one (the decoder does not check the MS-OVBA 4096 rule)'],
     ),
+    'C12': dict(
+        level_text='Bounded model checking of the real shared-string-table reader (RecordIter -> parse_sst -> read_rich_extended_string -> read_dbcs / Record::skip / continue_record / XlsEncoding::decode_to) on two-string tables whose first string is split across CONTINUE records at every kind of split point (inside the characters with a fresh compression flag, before the first character, between strings, inside rgRun, inside ExtRst) and every 8-bit/16-bit packing per segment; characters, run/ext bytes and reserved flag bits symbolic. Both strings must decode to exactly the stored characters.',
+        hosts={'src/xls.rs': ['c12_xls.rs']},
+        functions=['xls::RecordIter::next', 'xls::parse_sst', 'xls::read_rich_extended_string', 'xls::read_dbcs', 'xls::Record::continue_record', 'xls::Record::skip', 'cfb::XlsEncoding::decode_to', 'cfb::XlsEncoding::high_byte'],
+        stubs=['encoding_rs::Encoding::decode -> k_kcommon::model_utf16_decode (UTF-16LE, ASCII code units only)'],
+        bounds={'strings': 'two strings; string 1 of 1..=3 characters, string 2 of 1..=2', 'splits': '12 split/packing shapes quick, 17 thorough (listed per harness)', 'characters': 'printable ASCII, symbolic'},
+        outside=['astral and non-ASCII characters (decoder stubbed)', 'cch > 3', 'code pages other than 1200', 'sheet names / LABEL / formula-string records (same decode_to kernel, different callers)'],
+        assumptions=['the CONTINUE layout follows MS-XLS 2.5.293: a flag byte only when the split falls inside the character array'],
+    ),
 }
 
 # (regex on harness name, overrides). First match wins after defaults.
@@ -103,6 +112,7 @@ RULES = [
     (r'_twin(_\w+)?$', dict(expect='fail', weight=0)),
     (r'^c10_', dict(arena=64)),
     (r'^c18_', dict(arena=64)),
+    (r'^c12_', dict(arena=64)),
     (r'^c13_[qt]_(chain|cutoff|stream|twin)', dict(arena=64)),
     (r'^c13_[qt]_header', dict(arena=512)),
     (r'^c13_q_cutoff', dict(min_covers=2)),
